@@ -34,6 +34,7 @@ def step (_ : Unit) (j : Json) : Unit × Json :=
     | .ok l => ((), Json.mkObj [("deps", encDeps l)])
     | .error e => ((), Json.mkObj [("panic", e)])
   | "gradle" => ((), Json.mkObj [("deps", encDeps (gradleDeps ((arr j "stmts").map decStmt)))])
+  | "gradlesoup" => ((), Json.mkObj [("soup", true)])      -- arbitrary scripts: the model only says that extraction returns
   | "unused" =>
     let poms := (arr j "poms").map fun p => analysisMaven ((arr p "tokens").map decTok)
     let gradles := (arr j "gradles").map fun g => gradleDeps ((arr g "stmts").map decStmt)
